@@ -72,7 +72,8 @@ def oracle_A(ctx, sc, em, mps, psi):
     h = x / em.hnorm
     ctx.cls("family:" + sc.family)
     order = sc.order
-    if sc.family == "ps" and list(mps.bond_dims) != [int(c) for c in states.exact_bond_caps(em.gm.dims)]:
+    if sc.family == "ps" and not (list(mps.bond_dims) == [int(c) for c in states.exact_bond_caps(em.gm.dims)]
+                                  or all(states.sector_complete_cuts(em.gm, mps.qntot, psi))):
         # in a symmetry sector the bond bases of a rank-saturated state need not be complete on either side of a bond:
         # the one-site splitting is then a second-order integrator (local error h^3), not exact
         order = 2
